@@ -8,7 +8,8 @@ Abstract cells are the JSON form of KernModel.Abstract.ACell; the Lean driver re
 from __future__ import annotations
 
 # the 30 signifiers that do not combine with their neighbours (probed: all positions, repeats, ordered pairs)
-SIG30 = list("$'()/:;JKLMNOSV[\\]^_`klmst{}~")
+SIG30 = list('"' + "$'()/:;JKLMNOSV[\\]^_`klmst{}~")
+assert len(SIG30) == 30
 # also read as accidental-display suffix: only on notes without accidental
 SIG_DISPLAY = list('XijZ')
 REST_SIG = list("();'{}")          # restDecoration alternatives that are kept (stems are discarded by the listener)
